@@ -539,3 +539,185 @@ theorem mergeGenericKVs_eq (a b : KVs) : mergeGenericKVs a b = mergeKVsE generic
         | ok m => simp only []; exact ih _
 
 end CV.Det
+
+/-! ### `newGraph` as a whole (no self dependency) -/
+namespace CV.Det
+open CV CV.Val
+
+/-- edges a service contributes: its dependencies that are enabled services -/
+def edgesOf (en : List String) (s : Svc) : List String :=
+  (s.deps.filter (fun kv => en.contains kv.1)).map Prod.fst
+
+def adjOf (en : List String) (svcs : List Svc) : AL (List String) := svcs.map (fun s => (s.name, edgesOf en s))
+
+def NoSelf (svcs : List Svc) : Prop := ∀ s ∈ svcs, s.name ∉ akeys s.deps
+
+theorem graphLoop_ok_shape (en dis : List String) (svcs : List Svc) (hs : NoSelf svcs)
+    (ss : List Svc) (adj : AL (List String)) (h : graphLoop en dis svcs = .ok (ss, adj)) :
+    ss = svcs ∧ adj = adjOf en svcs := by
+  induction svcs generalizing ss adj with
+  | nil => simp only [graphLoop] at h; cases h; exact ⟨rfl, rfl⟩
+  | cons s r ih =>
+    simp only [graphLoop] at h
+    have hs' : NoSelf r := fun x hx => hs x (List.mem_cons_of_mem _ hx)
+    have hself : s.name ∉ akeys s.deps := hs s List.mem_cons_self
+    cases hd : depLoop en dis s.name s.deps ⟨[], false⟩ with
+    | error e => simp [hd] at h
+    | ok st =>
+      simp only [hd] at h
+      cases hg : graphLoop en dis r with
+      | error e => simp [hg] at h
+      | ok p =>
+        obtain ⟨ss', adj'⟩ := p
+        simp only [hg] at h
+        cases h
+        obtain ⟨e1, e2⟩ := ih hs' ss' adj' hg
+        obtain ⟨ed, _⟩ := depLoop_ok en dis s.name s.deps hself _ st hd
+        refine ⟨?_, ?_⟩
+        · rw [svcAfter_noSelf s st hself, e1]
+        · simp only [adjOf, List.map_cons, edgesOf]
+          rw [ed, e2]; simp [adjOf, edgesOf]
+
+/-- with no self dependency, `newGraph` succeeds iff no required dependency is missing and the graph is acyclic -/
+theorem newGraph_toBool (svcs : List Svc) (dis : List String) (hs : NoSelf svcs) :
+    (newGraph svcs dis).toBool =
+      ((graphLoop (svcs.map (·.name)) dis svcs).toBool && !hasCycle (adjOf (svcs.map (·.name)) svcs)) := by
+  simp only [newGraph]
+  cases hg : graphLoop (svcs.map (·.name)) dis svcs with
+  | error e => simp [Except.toBool]
+  | ok p =>
+    obtain ⟨ss, adj⟩ := p
+    obtain ⟨_, e2⟩ := graphLoop_ok_shape _ dis svcs hs ss adj hg
+    simp only [e2]
+    split <;> simp_all [Except.toBool]
+
+end CV.Det
+
+namespace CV.Det
+open CV CV.Val
+
+/-- the same services in the same order, every `depends_on` map ranged in another order -/
+inductive DepsPerm : List Svc → List Svc → Prop
+  | nil : DepsPerm [] []
+  | cons {s' s : Svc} {r' r : List Svc} : s'.name = s.name → s'.deps.Perm s.deps → DepsPerm r' r → DepsPerm (s' :: r') (s :: r)
+
+/-- **any iteration order of the project**: the services map ranged in another order, and every `depends_on` map too -/
+def SvcsPerm (svcs' svcs : List Svc) : Prop := ∃ mid, svcs'.Perm mid ∧ DepsPerm mid svcs
+
+theorem DepsPerm.names {a b : List Svc} (h : DepsPerm a b) : a.map (·.name) = b.map (·.name) := by
+  induction h with
+  | nil => rfl
+  | cons hn _ _ ih => simp [hn, ih]
+
+theorem DepsPerm.noSelf {a b : List Svc} (h : DepsPerm a b) (hs : NoSelf b) : NoSelf a := by
+  induction h with
+  | nil => intro s hs'; cases hs'
+  | cons hn hp _ ih =>
+    intro x hx
+    rcases List.mem_cons.mp hx with rfl | hx
+    · rw [hn]; intro hk
+      exact hs _ List.mem_cons_self ((hp.map Prod.fst).subset hk)
+    · exact ih (fun y hy => hs y (List.mem_cons_of_mem _ hy)) x hx
+
+theorem missingReq_congr {en en' : List String} (he : ∀ x, en'.contains x = en.contains x) {d d' : AL Bool}
+    (hp : d'.Perm d) : missingReq en' d' = missingReq en d := by
+  simp only [missingReq]
+  rw [hp.any_eq]
+  exact List.any_congr rfl (fun a => by rw [he])
+
+theorem edgesOf_congr {en en' : List String} (he : ∀ x, en'.contains x = en.contains x) {s s' : Svc}
+    (hp : s'.deps.Perm s.deps) : (edgesOf en' s').Perm (edgesOf en s) := by
+  simp only [edgesOf]
+  have : (fun kv : String × Bool => en'.contains kv.1) = (fun kv => en.contains kv.1) := by
+    funext kv; exact he kv.1
+  rw [this]
+  exact (hp.filter _).map _
+
+theorem depLoops_all_congr {en en' dis : List String} (he : ∀ x, en'.contains x = en.contains x)
+    {a b : List Svc} (h : DepsPerm a b) (hs : NoSelf b) :
+    a.all (fun s => (depLoop en' dis s.name s.deps ⟨[], false⟩).toBool) =
+    b.all (fun s => (depLoop en dis s.name s.deps ⟨[], false⟩).toBool) := by
+  have hsa := h.noSelf hs
+  induction h with
+  | nil => rfl
+  | @cons s' s r' r hn hp hr ih =>
+    simp only [List.all_cons]
+    rw [depLoop_toBool en' dis s'.name s'.deps (hsa _ List.mem_cons_self),
+        depLoop_toBool en dis s.name s.deps (hs _ List.mem_cons_self),
+        missingReq_congr he hp,
+        ih (fun y hy => hs y (List.mem_cons_of_mem _ hy)) (fun y hy => hsa y (List.mem_cons_of_mem _ hy))]
+
+/-- children of a vertex -/
+def children (adj : AL (List String)) (x : String) : List String := (find x adj).getD []
+
+theorem reaches_congr {adj adj' : AL (List String)} (hc : ∀ x, (children adj' x).Perm (children adj x)) :
+    ∀ (n : Nat) (x t : String), reaches adj' n x t = reaches adj n x t := by
+  intro n
+  induction n with
+  | zero => intro x t; rfl
+  | succ n ih =>
+    intro x t
+    simp only [reaches]
+    have := hc x
+    simp only [children] at this
+    rw [this.any_eq]
+    exact List.any_congr rfl (fun c => by rw [ih])
+
+theorem hasCycle_eq (adj : AL (List String)) :
+    hasCycle adj = (akeys adj).any (fun k => reaches adj adj.length k k) := by
+  simp only [hasCycle, akeys, List.any_map]; rfl
+
+theorem hasCycle_congr {adj adj' : AL (List String)} (hk : (akeys adj').Perm (akeys adj))
+    (hc : ∀ x, (children adj' x).Perm (children adj x)) : hasCycle adj' = hasCycle adj := by
+  rw [hasCycle_eq, hasCycle_eq, hk.any_eq]
+  have hl : adj'.length = adj.length := by
+    have := hk.length_eq; simpa [akeys] using this
+  rw [hl]
+  exact List.any_congr rfl (fun k => reaches_congr hc _ _ _)
+
+theorem akeys_adjOf (en : List String) (svcs : List Svc) : akeys (adjOf en svcs) = svcs.map (·.name) := by
+  simp [akeys, adjOf, Function.comp_def]
+
+theorem children_adjOf_depsPerm {en en' : List String} (he : ∀ x, en'.contains x = en.contains x)
+    {a b : List Svc} (h : DepsPerm a b) (x : String) :
+    (children (adjOf en' a) x).Perm (children (adjOf en b) x) := by
+  induction h with
+  | nil => exact List.Perm.refl _
+  | @cons s' s r' r hn hp hr ih =>
+    simp only [children, adjOf, List.map_cons, find, hn] at ih ⊢
+    split
+    · simpa using edgesOf_congr he hp
+    · exact ih
+
+/-- **`graph.CheckCycle` without self dependencies is order independent**: for services with distinct names none of
+which depends on itself, whether `newGraph` (+ cycle search) accepts the project is the same for every iteration
+order of the services map and of every `depends_on` map -/
+theorem newGraph_toBool_perm {svcs svcs' : List Svc} (dis : List String) (hs : NoSelf svcs)
+    (hn : (svcs.map (·.name)).Nodup) (hp : SvcsPerm svcs' svcs) :
+    (newGraph svcs' dis).toBool = (newGraph svcs dis).toBool := by
+  obtain ⟨mid, hpm, hdm⟩ := hp
+  have hsm : NoSelf mid := hdm.noSelf hs
+  have hs' : NoSelf svcs' := fun x hx => hsm x (hpm.subset hx)
+  have hnames : (svcs'.map (·.name)).Perm (svcs.map (·.name)) := by
+    rw [← hdm.names]; exact hpm.map _
+  have he : ∀ x, (svcs'.map (·.name)).contains x = (svcs.map (·.name)).contains x :=
+    fun x => hnames.contains_eq
+  rw [newGraph_toBool svcs' dis hs', newGraph_toBool svcs dis hs]
+  congr 1
+  · rw [graphLoop_toBool, graphLoop_toBool, hpm.all_eq]
+    exact depLoops_all_congr he hdm hs
+  · congr 1
+    apply hasCycle_congr
+    · rw [akeys_adjOf, akeys_adjOf]; exact hnames
+    · intro x
+      have hnm : (akeys (adjOf (svcs'.map (·.name)) mid)).Nodup := by
+        rw [akeys_adjOf, hdm.names]; exact hn
+      have h1 : children (adjOf (svcs'.map (·.name)) svcs') x = children (adjOf (svcs'.map (·.name)) mid) x := by
+        simp only [children]
+        have hp2 : (adjOf (svcs'.map (·.name)) svcs').Perm (adjOf (svcs'.map (·.name)) mid) := by
+          simp only [adjOf]; exact hpm.map _
+        rw [find_perm hnm hp2 x]
+      rw [h1]
+      exact children_adjOf_depsPerm he hdm x
+
+end CV.Det
